@@ -30,6 +30,7 @@ class Obj:
         self.lazy = False
         self.ptr_recv = False
         self.chan_probe = False
+        self.under = "struct"       # underlying kind of a generic named type: struct | map | array | slice | basic | func | chan
         self.probe_ids = None       # per own parameter: indices into PROBES[constraint]; None = the first one only
 
     @property
@@ -160,6 +161,26 @@ def refs_in_ty(P, e):
 
 # ------------------------------------------------------------------ templates
 
+def ltype_field_types(P, t, es):
+    """field types of local type t as written at a use site inside its nesting function (own -> es, nest -> the function's parameters)"""
+    nfn = P.objs[t.nest]
+    ident = [("own", i) for i in range(nfn.arity)]
+    return [subst(f, es, ident) for f in t.fields]
+
+
+def use_exprs(P, it):
+    """the type expressions a `use` item writes, in source order (body_lines prints exactly these)"""
+    t = P.objs[it["t"]]
+    ty = ("named", t.id, it["es"])
+    if t.kind == "ltype":
+        lit = [ty] + ltype_field_types(P, t, it["es"])      # T{F0: *new(FT0), ...}
+        return [ty] + lit + lit                              # var v T; keyed literal; positional literal
+    out = [ty]
+    for mid in t.methods:
+        out += [ty] if P.objs[mid].ptr_recv else [ty, ty]    # (*T).M1(&v)  /  T.M0(v); (*T).M0(pv)
+    return out
+
+
 def items_template(P, items):
     out = []
     for it in items:
@@ -169,11 +190,8 @@ def items_template(P, items):
             for e in it["es"]:
                 out += refs_in_ty(P, e)
         elif k == "use":
-            o = P.objs[it["t"]]
-            if o.arity > 0:
-                out.append(("inst", it["t"], it["es"], o.kind == "ltype"))
-                for e in it["es"]:
-                    out += refs_in_ty(P, e)
+            for e in use_exprs(P, it):
+                out += refs_in_ty(P, e)
         elif k == "ldef":
             o = P.objs[it["t"]]
             if o.arity == 0:
@@ -329,8 +347,10 @@ class Gen:
             cons = self.gen_cons()
             o = Obj(len(P.objs), pkg, ("F%d" if kind == "func" else "B%d") % len(P.objs), kind, cons)
             P.objs.append(o)
+            if kind == "type" and cons[0] != "sl" and r.random() < 0.45:
+                o.under = r.choice(["map", "map", "array", "slice", "basic", "func", "chan"])
             if kind == "type":
-                for mi in range(r.randint(0, 2)):
+                for mi in range(r.randint(0, 2) if o.under == "struct" else r.randint(1, 2)):
                     m = Obj(len(P.objs), pkg, "M%d" % mi, "method", cons, recv=o.id)
                     m.ptr_recv = (mi == 1)
                     P.objs.append(m)
@@ -429,6 +449,9 @@ class Gen:
     def gen_fields(self, o):
         r, P = self.r, self.P
         params = self.own_params(o)
+        if o.under != "struct":
+            o.fields = []                 # the underlying type mentions only T0: no identifiers with instances
+            return
         o.fields = [("own", i) for i in range(o.arity)]
         for _ in range(r.randint(0, 2)):
             x = r.random()
@@ -466,16 +489,19 @@ class Gen:
                 t = r.choice(types_)
                 es = self.ref_args(rank, o.pkg, t, params, root if o.kind == "method" else None)
                 o.items.append(dict(k="use", t=t.id, es=es))
-            elif o.kind == "func":
-                # a type declared inside the generic function
+            else:
+                # a type declared inside the generic function / method
                 generic = r.random() < 0.6
                 lt = Obj(len(P.objs), o.pkg, "L%d" % len(P.objs), "ltype", [r.choice(["any", "any", "cmp"])] if generic else [], nest=o.id)
                 P.objs.append(lt)
                 lparams = [(("nest", i), c) for i, c in enumerate(o.cons)] + [(("own", i), c) for i, c in enumerate(lt.cons)]
+                bare = [e for e, c in lparams if c in ("cmp", "num")]     # comparable: the local type stays usable as a map key
                 for _ in range(r.randint(1, 3)):
                     y = r.random()
                     gl = [l for l in locals_ if l.arity > 0]
-                    if y < 0.4 and gl:
+                    if bare and r.random() < 0.45:
+                        lt.fields.append(r.choice(bare))           # a field whose type is a bare type parameter
+                    elif y < 0.4 and gl:
                         l2 = r.choice(gl)
                         lt.fields.append(("named", l2.id, [self.gen_ty(o.pkg, lparams, l2.cons[0], 1, rank, allow_named=False)]))
                     elif y < 0.75:
@@ -681,15 +707,34 @@ def body_lines(P, o, items, pkg, ind, ctxname):
             v = "v%d" % vn[0]
             ty = gosyn(P, ("named", t.id, it["es"]), pkg)
             if t.kind == "ltype":
-                L.append("%s{ var %s %s; tr.Note(%s, %s) }" % (ind, v, ty, gostr(ctxname + "." + t.name), v))
+                # keyed and positional composite literals of the local type, compared and read back
+                nfn = P.objs[t.nest]
+                ident = [("own", i) for i in range(nfn.arity)]
+                vals, extra = [], ""
+                for fi, f in enumerate(t.fields):
+                    fu = subst(f, it["es"], ident)
+                    fty = gosyn(P, fu, pkg)
+                    isnum = f[0] in ("own", "nest") and (t.cons[f[1]] if f[0] == "own" else nfn.cons[f[1]]) == "num"
+                    vals.append("%s(3)" % fty if isnum else "*new(%s)" % fty)
+                    if f[0] in ("own", "nest"):
+                        extra += "; tr.V(k.F%d); tr.V(p.F%d); tr.B(k.F%d == p.F%d)" % (fi, fi, fi, fi)
+                        if isnum:
+                            extra += "; tr.I(int(k.F%d + p.F%d*%s(50)))" % (fi, fi, fty)
+                keyed = ", ".join("F%d: %s" % (fi, x) for fi, x in enumerate(vals))
+                L.append("%s{ var %s %s; tr.Note(%s, %s); k := %s{%s}; p := %s{%s}; tr.B(k == p); tr.B(any(k) == any(p)); tr.Note(%s, k)%s }" % (
+                    ind, v, ty, gostr(ctxname + "." + t.name), v, ty, keyed, ty, ", ".join(vals), gostr(ctxname + "." + t.name), extra))
             else:
                 calls = ""
                 for mid in t.methods:
                     m = P.objs[mid]
                     if m.ptr_recv:
-                        calls += "; (&%s).%s()" % (v, m.name)
+                        calls += "; (&%s).%s(); (*%s).%s(&%s)" % (v, m.name, ty, m.name, v)
                     else:
-                        calls += "; any(%s).(interface{ %s() }).%s()" % (v, m.name, m.name)
+                        # value receiver: directly, through a pointer, through interfaces holding the value / the pointer,
+                        # and as method expressions of the type and of its pointer type
+                        calls += ("; any(%s).(interface{ %s() }).%s(); %s.%s(); p%s := &%s; p%s.%s(); var i%s interface{ %s() } = p%s; i%s.%s(); "
+                                  "%s.%s(%s); (*%s).%s(p%s); f%s := p%s.%s; f%s()") % (
+                            v, m.name, m.name, v, m.name, v, v, v, m.name, v, m.name, v, v, m.name, ty, m.name, v, ty, m.name, v, v, v, m.name, v)
                 L.append("%s{ var %s %s; tr.Use(&%s)%s }" % (ind, v, ty, v, calls))
         elif k == "ldef":
             t = P.objs[it["t"]]
@@ -739,6 +784,11 @@ def sources(P, mod=MOD, mainpkg="main"):
                 body += probes(o, "\t")
                 body += body_lines(P, o, o.items, k, "\t", qual)
                 body.append("}")
+                body.append("")
+            elif o.kind == "type" and o.under != "struct":
+                key = "T0" if o.cons[0] in ("cmp", "num") else "int"
+                under = {"map": "map[%s]T0" % key, "array": "[2]T0", "slice": "[]T0", "basic": "int32", "func": "func() T0", "chan": "chan T0"}[o.under]
+                body.append("type %s%s %s" % (o.name, cons_syntax(P, o, k), under))
                 body.append("")
             elif o.kind == "type":
                 body.append("type %s%s struct {" % (o.name, cons_syntax(P, o, k)))
@@ -895,6 +945,7 @@ def predict_trace(P):
             elif k == "use":
                 t = P.objs[it["t"]]
                 if t.kind == "ltype":
+                    out.append("N %s.%s" % (ctxname, t.name))
                     out.append("N %s.%s" % (ctxname, t.name))
                 else:
                     args = [subst(e, own, []) for e in it["es"]]
